@@ -193,7 +193,9 @@ impl<'a> Runner<'a> {
                 };
                 let db = norm(db, ub);
                 let da = norm(da, ua);
-                if da != db {
+                // a step that brings the accounting back to exactly the stored bytes repairs an
+                // earlier (reported) drift: it is what the property asks for, not a violation
+                if da != db && da != 0 {
                     let ok = obs.resps.first().map(|r| r.status == 0).unwrap_or(true);
                     // classify the amount: which record's size went unaccounted
                     let key = cmd.key().map(|k| k.to_vec());
